@@ -199,6 +199,10 @@ def check_consensus_reads(acc, reads, mol_recs, gen, contig, truth_tags, label, 
     got_cov = set()
     for a in reads:
         acc.count('reads:checked')
+        if a.reference_name != contig:
+            acc.violate('consensus-read-on-another-contig', f'{label}: the reads of the molecule lie on {contig}, its consensus record on {a.reference_name} '
+                                                            f'(position {a.reference_start})', wit)
+            continue
         if a.is_reverse:
             acc.count('reads:reverse')
         if 'N' in (a.cigarstring or ''):
@@ -378,7 +382,11 @@ def run_case(case):
             mols = list(MoleculeIterator(f, molecule_class=mclass, fragment_class=fclass, fragment_class_args={'umi_hamming_distance': 0},
                                          molecule_class_args=margs, yield_overflow=False))
             cb_path = os.path.join(dd, 'consensus_with_callback.bam')
-            cb_out = pysam.AlignmentFile(cb_path, 'wb', header=f.header)
+            # the output file is not a copy of the input: its header lists an extra contig first and the others in reverse order (a header made
+            # from another dictionary of the same reference)
+            hd_ = f.header.to_dict()
+            hd_['SQ'] = [{'SN': 'chrExtra', 'LN': 1234}] + list(reversed(hd_['SQ']))
+            cb_out = pysam.AlignmentFile(cb_path, 'wb', header=pysam.AlignmentHeader.from_dict(hd_))
             cb_seen = defaultdict(int)
             cb_expect = {}
             for mi, m in enumerate(mols):
